@@ -143,6 +143,9 @@ fn run_history(out: &mut dyn Write, line: &str) {
     let bomb = c.u64("bomb", 0) != 0;
     // The closure handed to the pool owns over-aligned state (a u128 and a cache-padded block).
     let oalign = c.u64("oalign", 0) != 0;
+    // An idle gap before broadcast `gapat`: pooled threads must survive it and be reused.
+    let gap_at = c.i64("gapat", -1);
+    let gap_ms = c.u64("gapms", 0);
     let pe_lines: std::sync::Mutex<Vec<String>> = std::sync::Mutex::new(Vec::new());
     let tc_line: std::sync::Mutex<Vec<(usize, usize)>> = std::sync::Mutex::new(Vec::new());
     {
@@ -155,6 +158,9 @@ fn run_history(out: &mut dyn Write, line: &str) {
         for b in range {
             let n = hist[b];
             let off = offsets[b];
+            if gap_ms > 0 && gap_at == b as i64 {
+                std::thread::sleep(std::time::Duration::from_millis(gap_ms));
+            }
             // State that lives in this frame exactly as long as the broadcast's task block.
             let marker: [u64; 4] = [token(b, 0), !token(b, 0), seed, b as u64];
             let marker_ref = &marker;
